@@ -82,6 +82,10 @@ pub struct CsvCase {
     /// monotonically onto the distinct filled positions in (row, column) order
     #[serde(default)]
     pub removed: Vec<u16>,
+    /// column edits of the active sheet after filling (and removing): (insert?, at, n),
+    /// through Worksheet::insert_new_column_by_index / remove_column_by_index
+    #[serde(default)]
+    pub col_edits: Vec<(bool, u16, u16)>,
 }
 
 fn wrap_char(w: u8) -> Option<char> {
@@ -140,9 +144,10 @@ fn value(enc: &'static str, breaking: bool) -> BoxedStrategy<Val> {
 }
 
 fn sheet(enc: &'static str, breaking: bool) -> BoxedStrategy<Vec<CellSpec>> {
-    let col = prop_oneof![10 => 1u16..=8, 1 => 9u16..=30];
+    // column XFD (16384) makes every record 16384 fields wide: rare, and only in low rows
+    let col = prop_oneof![2000 => 1u16..=8, 200 => 9u16..=30, 1 => Just(16384u16)];
     let row = prop_oneof![10 => 1u16..=10, 1 => 11u16..=60];
-    let cell = (col, row, value(enc, breaking)).prop_map(|(col, row, val)| CellSpec { col, row, val });
+    let cell = (col, row, value(enc, breaking)).prop_map(|(col, row, val)| CellSpec { col, row: if col == 16384 { 1 + row % 3 } else { row }, val });
     prop_oneof![
         1 => Just(Vec::new()),
         3 => prop::collection::vec(cell.clone(), 1..3),
@@ -167,11 +172,12 @@ fn csv_case(_t: Tier) -> BoxedStrategy<CsvCase> {
                 any::<bool>(),
                 prop::bool::weighted(0.125),
                 prop_oneof![3 => Just(Vec::new()), 2 => prop::collection::vec(any::<u16>(), 1..4)],
+                prop_oneof![4 => Just(Vec::new()), 1 => prop::collection::vec((any::<bool>(), 1u16..=9, 1u16..=3), 1..3)],
             )
         })
-        .prop_map(|(enc, wrap, sheets, active, trim, via_path, removed)| {
+        .prop_map(|(enc, wrap, sheets, active, trim, via_path, removed, col_edits)| {
             let n = sheets.len() as u8;
-            CsvCase { sheets, active: active % n.max(1), enc, trim, wrap, via_path, removed }
+            CsvCase { sheets, active: active % n.max(1), enc, trim, wrap, via_path, removed, col_edits }
         })
         .boxed()
 }
@@ -303,6 +309,28 @@ fn check_csv(c: &CsvCase, obs: &mut Obs) -> Verdict {
     if !removed_pos.is_empty() {
         obs.class("history/fill-then-remove");
     }
+    // column inserts/removals (skipped when a cell sits in the last columns: no room to shift)
+    let mut col_edits: Vec<(bool, u32, u32)> = Vec::new();
+    for (ins, at, n) in &c.col_edits {
+        let (at, n) = (*at as u32, *n as u32);
+        let maxc = grid.keys().map(|k| k.1).max().unwrap_or(0);
+        if *ins {
+            if maxc + n > 16384 {
+                continue;
+            }
+            grid = grid.into_iter().map(|((r, cc), e)| ((r, if cc >= at { cc + n } else { cc }), e)).collect();
+        } else {
+            grid = grid
+                .into_iter()
+                .filter(|((_, cc), _)| !(*cc >= at && *cc < at + n))
+                .map(|((r, cc), e)| ((r, if cc >= at + n { cc - n } else { cc }), e))
+                .collect();
+        }
+        col_edits.push((*ins, at, n));
+    }
+    if !col_edits.is_empty() {
+        obs.class("history/column-insert-remove");
+    }
     let max_row = grid.keys().map(|k| k.0).max().unwrap_or(0);
     let max_col = grid.keys().map(|k| k.1).max().unwrap_or(0);
     for e in grid.values() {
@@ -358,6 +386,14 @@ fn check_csv(c: &CsvCase, obs: &mut Obs) -> Verdict {
         }
         for (row, col) in &removed_pos {
             book.get_sheet_mut(&active).unwrap().remove_cell((*col, *row));
+        }
+        for (ins, at, n) in &col_edits {
+            let ws = book.get_sheet_mut(&active).unwrap();
+            if *ins {
+                ws.insert_new_column_by_index(at, n);
+            } else {
+                ws.remove_column_by_index(at, n);
+            }
         }
         book.set_active_sheet(active as u32);
         let mut option = CsvWriterOption::default();
@@ -591,7 +627,7 @@ fn extra(ctx: &Ctx) {
                     ];
                     let other = vec![cell(1, 1, "other sheet"), cell(9, 9, "x")];
                     for (sheets, act) in [(vec![active.clone(), other.clone()], 0u8), (vec![other.clone(), active.clone()], 1u8)] {
-                        let case = CsvCase { sheets, active: act, enc, trim, wrap, via_path: false, removed: Vec::new() };
+                        let case = CsvCase { sheets, active: act, enc, trim, wrap, via_path: false, removed: Vec::new(), col_edits: Vec::new() };
                         let mut obs = Obs::default();
                         let v = check_csv(&case, &mut obs);
                         let fp = fnv(format!("enum|{}|{}|{}|{}|{}", enc, trim, wrap, breaking, act).as_bytes());
